@@ -291,12 +291,12 @@ def run(ctx, args):
     notes = []
 
     # ------------------------------------------------------------------ trees
-    n_facts, n_o0, n_o2, n_arch = (3, 5, 2, 1) if quick else (6, 24, 6, 2)
+    n_facts, n_o0, n_o2, n_arch = (2, 5, 2, 1) if quick else (6, 24, 6, 2)
     if os.environ.get("VERIF_C12_SMALL"):      # debugging aid (mutation experiments on a loaded machine): not a tier
         n_facts, n_o0, n_o2, n_arch = 1, 2, 0, 0
     bf, be, bo = Batch(ctx, work, "c12f", "facts"), Batch(ctx, work, "c12e", "O0"), Batch(ctx, work, "c12o", "O2")
     for i in range(n_facts):      # compiled with -gen-llfiles: no sync/atomic (see the note below)
-        bf.add(rng, npk=[8, 5, 3][i] if i < 3 else None, atomic=False)
+        bf.add(rng, npk=[8, 4, 3][i] if i < 3 else None, atomic=False)
     for s in CORPUS_SEEDS:
         be.add(random.Random(s))
     for i in range(max(0, n_o0 - len(CORPUS_SEEDS))):
